@@ -262,4 +262,13 @@ theorem parseDigit_code_tie (c : Nat) (au : Bool) :
     UU.parseDigit c au = (if (Gen.uu_parseDigit c au).2 then some (Gen.uu_parseDigit c au).1 else none) :=
   CodeTies.parseDigit_tie c au
 
+theorem paths_agree (i : ID) :
+    marshalText i = format [] i false ∧ UU.toString i = format [] i false ∧
+    formatVerb i 115 = format [] i false ∧ formatVerb i 118 = format [] i false ∧ formatVerb i 117 = format [] i true := by
+  have e0 : isURN 0 = false := by decide
+  have es : isURN (flagsByVerb 115) = false := by decide
+  have ev : isURN (flagsByVerb 118) = false := by decide
+  have eu : isURN (flagsByVerb 117) = true := by decide
+  simp only [marshalText, UU.toString, formatVerb, e0, es, ev, eu, and_self]
+
 end U.Props.C05
